@@ -12,7 +12,7 @@ from pathlib import Path
 from vt import wfprog as WP
 
 LEVEL = "model_checking"
-QUICK = ["fanin", "split2_then", "split2_comb", "split3_fan", "diamond_plus"]
+QUICK = ["fanin", "split2_then", "split2_comb", "split3_fan", "diamond_plus", "split4"]
 THOROUGH = QUICK + ["par_chain", "fanout", "two_chains", "nested", "split2_par", "chain_fan", "split_zip"]
 
 WP.PROGRAMS.setdefault("split3_fan", ({"nodes": [WP.N("s", split="a", split_vals={"a": WP.W("x")}),
